@@ -218,7 +218,9 @@ def random_piece(rng, c):
                 s = b0
                 if (b1 - b0) in c["values"]:
                     val = b1 - b0
-            p = rng.randint(c["pitLo"], min(c["pitHi"], c["pitLo"] + 3))
+            # a few neighbouring pitches (so that repetitions of one pitch occur) or any pitch class of the range
+            p = rng.randint(c["pitLo"], min(c["pitHi"], c["pitLo"] + 3)) if rng.random() < .6 else \
+                rng.randint(c["pitLo"], min(c["pitHi"], c["pitLo"] + 14))
             if any(not (s + val <= a or b <= s) for a, b in busy.get(p, [])):
                 continue
             busy.setdefault(p, []).append((s, s + val))
@@ -765,8 +767,21 @@ def info_case(case):
         line["tokens"] = list(tokens)
         n = len(tokens)
         line["n"] = n
-        info = tok.get_info(list(tokens))
-        imp = tok.get_info(list(tokens), flag_impute_values=True)
+        if n and idx % 2:
+            # history: the same list object was annotated before while it held another stream of the same length
+            work = list(tokens)
+            work[0] = next((t for t in tok.dictionary if t.startswith("rst_") and t != tokens[0]), tokens[0])
+            try:
+                tok.get_info(work)
+                tok.get_info(work, flag_impute_values=True)
+            except Exception:
+                pass
+            work[:] = tokens
+            info = tok.get_info(work)
+            imp = tok.get_info(work, flag_impute_values=True)
+        else:
+            info = tok.get_info(list(tokens))
+            imp = tok.get_info(list(tokens), flag_impute_values=True)
         num = lambda x: -999 if x != x else P._int(x)        # NaN -> -999
         line["info"] = {"pos": [num(x) for x in info["info_position"]], "time": [num(x) for x in info["info_time"]],
                         "timeBar": [num(x) for x in info["info_time_bar"]], "pitch": [num(x) for x in info["info_pitch"]],
